@@ -88,6 +88,12 @@ pub trait SetupModule:
 
     fn try_set_ticket_price(&self, token_id: EgldOrEsdtTokenIdentifier, amount: BigUint) {
         require!(token_id.is_valid(), "Invalid token ID");
+        if token_id.is_esdt() {
+            require!(
+                self.launchpad_token_id().get() != token_id.clone().unwrap_esdt(),
+                "Launchpad token must be different from ticket payment token"
+            );
+        }
         require!(amount > 0, "Ticket price must be higher than 0");
 
         self.ticket_price()
